@@ -43,7 +43,20 @@ def behaviours(ctx, n, depth):
     refit.sort(key=lambda b: -len({(a['a'], a.get('f', '')) for a in b}))
     heavy = sorted([b for b in out if sum(1 for a in b if a['a'] == 'Fit') >= 2 and b not in refit[:n // 3]], key=score)
     chosen = refit[:n // 3] + heavy[:n // 3]
-    broad = sorted([b for b in out if b not in chosen], key=lambda b: -len({a.get('f', '') for a in b}))
+    # the rest: greedy balanced cover of the functions / actions - each pick maximises the sum over its distinct functions of 1/(1 + times already picked)
+    rest = [b for b in out if b not in chosen]
+    sets = [frozenset((a.get('f', '') or a['a']) for a in b) for b in rest]
+    picked_count, broad, avail = {}, [], set(range(len(rest)))
+    for b in chosen:
+        for f in {(a.get('f', '') or a['a']) for a in b}:
+            picked_count[f] = picked_count.get(f, 0) + 1
+    cand = sorted(avail, key=lambda k: -len(sets[k]))[:max(4 * n, 400)]          # bound the quadratic part
+    while len(broad) < n - len(chosen) and cand:
+        best = max(cand, key=lambda k: sum(1.0 / (1 + picked_count.get(f, 0)) for f in sets[k]))
+        cand.remove(best)
+        broad.append(rest[best])
+        for f in sets[best]:
+            picked_count[f] = picked_count.get(f, 0) + 1
     return chosen + broad[:n - len(chosen)]
 
 
@@ -79,6 +92,9 @@ def run_rp(ctx, pid_prefixes, n, depth):
         for f in dict.fromkeys(fails):
             if any(f.startswith(p) for p in pid_prefixes):
                 ctx.violation(f, 'session %s' % [(a['a'], a.get('f', ''), a['o'], a['method'], a['s'], a['v']) for a in b], {'kind': 'session', 'behaviour': b})
+    ext = sorted({f for fails in verdicts for f in fails if f.startswith('EXT.')})
+    if ext:      # behaviour beyond the listed properties (named deviations of Session.tla): informational
+        ctx.notes.append('EXTENSION-MISMATCH (informational, no listed property): %s' % ext)
     ctx.traces += len(behs)
     ctx.evaluations += len(behs)
     ctx.nontrivial += sum(1 for b in behs if any(a['a'] == 'Fit' for a in b) and any(a['a'] in ('Edit', 'Call', 'Recompute') for a in b))
